@@ -73,6 +73,25 @@ def run_case(case, ctx):
         return suite_case(case)
     n, s = case["n"], case["s"]
     viols, evals, counters = [], {}, {}
+    if (n + 3 * s) % 4 == 0 and n >= 4:
+        # an earlier planning attempt for the same problem is aborted by a
+        # source-free failpoint; what it leaves behind must not matter
+        from .. import probes
+        from ..drivers import safe_stepper
+        codes = probes.code_objects(name_filter=lambda c: c.co_name in (
+            "wrapped_fn", "mixed_step_memoization", "optimal_steps_mixed",
+            "_iterator"))
+        for k in (5 + n, 40 + 7 * s, 400):
+            fi = probes.FaultInjector(codes, k)
+            try:
+                with fi:
+                    safe_stepper({"cls": "Mixed", "n": n, "s": s,
+                                  "storage": "DISK"}, 1).run()
+            except probes.Injected:
+                pass
+            if fi.fired:
+                counters["aborted_planning_attempts"] = \
+                    counters.get("aborted_planning_attempts", 0) + 1
     streams = {}
     exp = O.mixed_opt(n, min(s, n - 1)) if n > 1 else 1
     for st in ("RAM", "DISK"):
